@@ -2212,6 +2212,8 @@ impl Kanata {
                 .all(|pk| self.layout.b().keycodes().any(|kc| kc == *pk))
             && self.move_mouse_state_horizontal.is_none()
             && self.dynamic_macro_replay_state.is_none()
+            // The delays of a recording are counted in ticks.
+            && self.dynamic_macro_record_state.is_none()
             && self.caps_word.is_none()
             && self.vkeys_pending_release.is_empty()
             && !self.layout.b().states.iter().any(|s| {
